@@ -288,7 +288,7 @@ func genC04(t *rapid.T, env string, hugeOK bool) caseC04 {
 	denom := world.Ufoo
 	classes := []string{"small", "typical", "typical", "round"}
 	if hugeOK {
-		classes = append(classes, "huge", "huge", "max")
+		classes = append(classes, "huge", "anybits", "anybits", "word", "max")
 		denom = world.Uhuge
 	}
 	var A *big.Int
@@ -302,6 +302,13 @@ func genC04(t *rapid.T, env string, hugeOK bool) caseC04 {
 	case "round":
 		A = big.NewInt(10000 * rapid.Int64Range(1, 1000).Draw(t, "A"))
 		denom = world.Ufoo
+	case "anybits":
+		// any magnitude: the statement quantifies over all amounts up to 2^256-1
+		A = kit.AnyBits(t, "A/any")
+	case "word":
+		// around the machine word sizes
+		A = new(big.Int).Lsh(big.NewInt(1), pick(t, "A/wexp", []uint{31, 32, 53, 63, 64, 64, 127, 128}))
+		A.Add(A, big.NewInt(int64(rapid.IntRange(-2, 2).Draw(t, "A/woff"))))
 	case "huge":
 		A = new(big.Int).Lsh(big.NewInt(1), uint(200+rapid.IntRange(0, 56).Draw(t, "A/exp")))
 		A.Sub(A, big.NewInt(int64(rapid.IntRange(0, 3).Draw(t, "A/off"))))
